@@ -882,6 +882,25 @@ def rule_other_text(rep: Report, rid="C13.text", cls_q=MQ, openers=('"""', "```"
            expected="self._indent_to_remove = 0 in reset() and on close; = token.line.indent on open", found=bad or [(w, fmt(v, ds.I)) for w, v, _ in writes])
 
 
+def norm_line_text(t, line):
+    """A text term with the facts about a scanned line applied: its indent (a count of leading characters) is never negative,
+    and the tail of a string from position 0 is the string."""
+    from ..absint import mk_cond
+    if not isinstance(t, tuple) or not t:
+        return t
+    t = tuple(norm_line_text(x, line) if isinstance(x, tuple) else x for x in t)
+    ind = ("attr", line, N.INDENT)
+    if t[0] == "cond":
+        c = t[1]
+        if c[0] == "cmp" and c[1] == "Lt" and c[2] == ind and is_const(c[3]) and isinstance(c[3][1], int) and c[3][1] <= 0:
+            return t[3]
+        if c[0] == "not" and c[1][0] == "cmp" and c[1][1] == "Lt" and c[1][2] == ind and is_const(c[1][3]) and isinstance(c[1][3][1], int) and c[1][3][1] <= 0:
+            return t[2]
+    if t[0] == "slice" and is_const(t[2], 0) and t[3] == NONE and (len(t) < 5 or t[4] == NONE) and t[1][0] == "attr" and t[1][1] == line:
+        return t[1]
+    return t
+
+
 def rule_token_table(rep: Report, rid="C16.trim", rid_col="C04.col") -> None:
     """Non-keyword kinds: what is tested and what is stored (Appendix B of DESIGN.md)."""
     M = mnf()
@@ -916,7 +935,7 @@ def rule_token_table(rep: Report, rid="C16.trim", rid_col="C04.col") -> None:
                    a.get("indent") == exp_indent or (exp_indent is None and a.get("indent") == ("attr", line, N.INDENT)), **kw,
                    expected=fmt(exp_indent, I) if exp_indent else "default", found=fmt(a.get("indent"), I) if a.get("indent") else "default")
             if kind == "Comment":
-                rep.eq(rid, "a comment keeps the whole raw line as its text", fmt(raw, I), fmt(a.get("text"), I) if a.get("text") else None, **kw)
+                rep.eq(rid, "a comment keeps the whole raw line as its text", fmt(raw, I), fmt(norm_line_text(a.get("text"), line), I) if a.get("text") else None, **kw)
             if kind == "TableRow":
                 rep.eq(rid, "table row items are the line's cells", ("prop", "table_cells", line), a.get("items"), **kw)
             if kind == "TagLine":
